@@ -128,6 +128,9 @@ def oracle_rt(codec, before, outcome, extras):
     flag = ex.get("equal", ex.get("equals"))
     if flag is not None and (flag == "true") != expected_flag(codec, b):
         return f"the type's own equality answered {flag}, expected {expected_flag(codec, b)}"
+    if ex.get("sameenc", "true") != "true":
+        return (f"the JSON encoding of the same value depends on how it is handed to the encoder: the {ex.get('sameenc')} encoding differs from the "
+                "pointer encoding (what is then decoded is not what was written)")
     if ex.get("current_same") == "false":
         return "SaveFinished wrote different records to the finished and the current bucket"
     return None
